@@ -369,7 +369,7 @@ func (l jsonList) patch(pathBehind, pathAhead Path, before, removeValues, addVal
 			return nil, err
 		}
 		l[i] = patchedNode
-		return l, nil
+		return jsonArray(l), nil
 	}
 
 	// Special case for appending to the end of list
@@ -378,7 +378,7 @@ func (l jsonList) patch(pathBehind, pathAhead Path, before, removeValues, addVal
 			return nil, fmt.Errorf("invalid patch. appending to -1 index. but want to remove values")
 		}
 		l = append(l, addValues...)
-		return l, nil
+		return jsonArray(l), nil
 	}
 
 	if int(i) < 0 || int(i) > len(l) {
@@ -433,5 +433,5 @@ func (l jsonList) patch(pathBehind, pathAhead Path, before, removeValues, addVal
 		}
 	}
 
-	return l2, nil
+	return jsonArray(l2), nil
 }
